@@ -9,19 +9,13 @@ func FullNetworkNameToNas(name string) (fullNetworkName nasType.FullNameForNetwo
 	asciiArray := []byte(name)
 	numOfSpareBits := 8 - ((7 * len(asciiArray)) % 8)
 
-	var buf []uint8
-	idx := uint8(7)
+	// TS 23.038 6.1.2.1.1: septet i occupies bits 7i .. 7i+6 of the octet string
+	buf := make([]uint8, (7*len(asciiArray)+7)/8)
 	for i, char := range asciiArray {
-		if i == 0 {
-			buf = append(buf, char)
-		} else {
-			buf[i-1] = (buf[i-1] & nasType.GetBitMask(idx+1, 0)) + char<<idx
-			buf = append(buf, char>>(8-idx))
-			idx--
-			// if idx overflow, it will round to max(uint8) == 255 == ^uint8(0)
-			if idx == ^uint8(0) {
-				idx = 7
-			}
+		pos := 7 * i
+		buf[pos/8] |= (char & 0x7f) << uint(pos%8)
+		if pos%8 > 1 {
+			buf[pos/8+1] |= (char & 0x7f) >> uint(8-pos%8)
 		}
 	}
 
@@ -38,19 +32,13 @@ func ShortNetworkNameToNas(name string) (shortNetworkName nasType.ShortNameForNe
 	asciiArray := []byte(name)
 	numOfSpareBits := 8 - ((7 * len(asciiArray)) % 8)
 
-	var buf []uint8
-	idx := uint8(7)
+	// TS 23.038 6.1.2.1.1: septet i occupies bits 7i .. 7i+6 of the octet string
+	buf := make([]uint8, (7*len(asciiArray)+7)/8)
 	for i, char := range asciiArray {
-		if i == 0 {
-			buf = append(buf, char)
-		} else {
-			buf[i-1] = (buf[i-1] & nasType.GetBitMask(idx+1, 0)) + char<<idx
-			buf = append(buf, char>>(8-idx))
-			idx--
-			// if idx overflow, it will round to max(uint8) == 255 == ^uint8(0)
-			if idx == ^uint8(0) {
-				idx = 7
-			}
+		pos := 7 * i
+		buf[pos/8] |= (char & 0x7f) << uint(pos%8)
+		if pos%8 > 1 {
+			buf[pos/8+1] |= (char & 0x7f) >> uint(8-pos%8)
 		}
 	}
 
